@@ -6,6 +6,9 @@ from common import Broken, sh
 
 ASSUMPTIONS = [
     "a transaction that returns a non-zero code leaves the state unchanged (C06); the model's handlers are no-ops on failure",
+    "the static part of stakeTx/unstakeTx/withdrawTx.Validate (signatures by the stake account and the validator key, fee currency and "
+    "price, well-formed addresses and public key, validator address = address of the consensus key (9246c8d)) holds for every generated "
+    "transaction; the model contains the state/amount-dependent part (coin valid, balance covers the stake, stake-address match, amount > 0)",
     "the transaction currency is OLT (the only registered stake currency); other currencies are C18/C02 matter",
     "allegation verdicts, the frozen flag, the open-request flag, the purge-height rule, the stake account's balance and the "
     "result of the fee step are INPUTS of the model operations (theorems hold for all values; the harness reads them from the real stores)",
@@ -14,24 +17,27 @@ ASSUMPTIONS = [
     "no byzantine evidence and no absent validators in the generated blocks",
     "maturity option changes are injected with the calls the governance update makes (governance.Store.SetStakingOptions + SetLUH "
     "on the deliver state), not through a full proposal life cycle",
-    "histories in which the application calls logger.Fatal (os.Exit; e.g. negative validator power reaching the fee distribution) "
-    "are run in a child process and dropped (counted in coverage.crashed_histories; C18 matter)",
+    "histories in which the application calls logger.Fatal (os.Exit; a negative validator power reaching the fee distribution, still "
+    "reachable through the record-deleted finding: findings/C11_observation_negative_power_exit.json) are run in a child process "
+    "and dropped (counted in coverage.crashed_histories; C18/C10 matter)",
 ]
 
 # trigger code -> trigger id
+# triggers 1 and 2 were repaired by fix 48c76fc (status "fixed" in KNOWN_FINDINGS.json): they explain nothing any more —
+# a monitor violation or a model mismatch downstream of them is an ordinary VIOLATION
 TRIGGERS = {1: "C11.stake_amount_ge_2p63", 2: "C11.negative_amount_deliver", 3: "C11.validator_record_deleted_with_stake",
             4: "C11.penalty_not_atomic", 5: "C11.withdraw_names_other_validator"}
 # monitor code -> (what, trigger codes that explain it)
 MONITORS = {
     11: ("validator total (st__t_) differs from the sum of its delegators' effective amounts", [4]),
     12: ("delegator effective total (st__d_e_) differs from the sum over validators", [4]),
-    13: ("validator record stake (v_) differs from st__t_ (+ pending penalty)", [3, 1, 2]),
-    14: ("withdrawn exceeds staked minus penalised (whole OLT)", [1, 2]),
-    15: ("paid out exceeds paid in minus penalties (base units, balance side)", [1, 2]),
+    13: ("validator record stake (v_) differs from st__t_ (+ pending penalty)", [3]),
+    14: ("withdrawn exceeds staked minus penalised (whole OLT)", []),
+    15: ("paid out exceeds paid in minus penalties (base units, balance side)", []),
     16: ("WITHDRAW accepted while a validator owned by the delegator is frozen", [5]),
-    17: ("staked - penalised - withdrawn differs from effective + withdrawable + maturing", [1, 2]),
-    18: ("withdrawable changed by something else than entries maturing at this height minus withdrawals", [1, 2]),
-    19: ("a successful UNSTAKE left no maturing entry at height + maturity", [1, 2]),
+    17: ("staked - penalised - withdrawn differs from effective + withdrawable + maturing", []),
+    18: ("withdrawable changed by something else than entries maturing at this height minus withdrawals", []),
+    19: ("a successful UNSTAKE left no maturing entry at height + maturity", []),
     20: ("a STAKE/UNSTAKE/WITHDRAW naming a frozen validator was accepted", []),
 }
 MM_CODES = {1: "ok/fail", 2: "balance change", 3: "st__e_", 4: "st__t_", 5: "st__d_e_", 6: "st__d_b_", 7: "st__m_", 8: "v_ record"}
@@ -73,10 +79,27 @@ def payload(cases, ci, step):
             "how": "./check replay <this file>  (re-runs the plan on the real application)"}
 
 
+# monitors whose expected value comes from the MODEL's state (maturing entries, pending penalty, penalised totals)
+MODEL_DEPENDENT = {13, 14, 15, 17, 18, 19}
+
+
 def judge(ctx, cases, mm, mon, trg):
     found_input = False
     known_hits = {}
+    # model / implementation mismatches: tolerated only downstream of a KNOWN trigger (one-sided comparison: the
+    # implementation may behave like the defective model or have been repaired).  From the first tolerated divergence on,
+    # the model no longer describes that history, so the model-dependent monitors are not evaluated on its remainder.
+    bad, diverged = [], {}
+    for (ci, step, code) in mm:
+        fired = {t for (c2, s2, t) in trg if c2 == ci and s2 <= step}
+        if fired and all(common.known("C11", TRIGGERS[t]) for t in fired):
+            diverged[ci] = min(diverged.get(ci, step), step)
+            continue
+        bad.append((ci, step, code))
     for (ci, step, code) in mon:
+        first_bad = min([s2 for (c2, s2, _) in bad if c2 == ci], default=None)
+        if code in MODEL_DEPENDENT and ci in diverged and step >= diverged[ci] and (first_bad is None or first_bad > diverged[ci]):
+            continue    # (a history that already mismatched OUTSIDE a known trigger region keeps all its monitors)
         what, expl = MONITORS.get(code, ("monitor %d" % code, []))
         fired = sorted({t for (c2, s2, t) in trg if c2 == ci and s2 <= step and t in expl}, key=expl.index)
         explained = False
@@ -91,18 +114,41 @@ def judge(ctx, cases, mm, mon, trg):
         if ctx.violations < 3:
             ctx.violation("monitor_%d_case_%d" % (code, ci), dict(payload(cases, ci, step), kind=what, monitor=code,
                           triggers_fired=[TRIGGERS[t] for (c2, s2, t) in trg if c2 == ci and s2 <= step]))
-    # model / implementation mismatches: tolerated only downstream of a known trigger (one-sided comparison)
-    bad = []
-    for (ci, step, code) in mm:
-        fired = {t for (c2, s2, t) in trg if c2 == ci and s2 <= step}
-        if fired and all(common.known("C11", TRIGGERS[t]) for t in fired):
-            continue
-        bad.append((ci, step, code))
     if bad and not found_input:
         ci, step, code = bad[0]
         raise Broken("correspondence Stake.v vs the real application broke: %s differs" % MM_CODES.get(code, code),
                      json.dumps(payload(cases, ci, step)))
     return known_hits, bad
+
+
+def corpus(ctx, vh):
+    """Witness replay (design 2.3 C): every C11 finding file is run on the implementation first.  A fixed finding must
+    now satisfy the property (no monitor violation, no mismatch); a known one must still show its trigger."""
+    n = 0
+    for f in common.load_findings():
+        if f["property"] != "C11":
+            continue
+        rp = json.load(open(os.path.join(common.VERIF, f["replay"])))
+        pf = os.path.join(ctx.scratch, "corpus_plan.json")
+        json.dump(rp["plan"], open(pf, "w"))
+        rep, cases, mm, mon, trg = evaluate(ctx, vh, ["-plan", pf])
+        n += 1
+        if rep.get("crashed_histories"):
+            ctx.violation("corpus_" + f["trigger"].split(".")[1], {"kind": "the application exits on the corpus history", "plan": rp["plan"]})
+            continue
+        if f["status"] == "fixed":
+            if mon or mm:
+                what = MONITORS.get(mon[0][2], ("",))[0] if mon else "model/implementation mismatch: " + str(MM_CODES.get(mm[0][2]))
+                step = (mon or mm)[0][1]
+                ctx.violation("corpus_" + f["trigger"].split(".")[1], dict(payload(cases, 0, step), kind="a repaired defect is back: " + what,
+                              finding=f["trigger"], fixed_by=f.get("commit")))
+        else:
+            judge(ctx, cases, mm, mon, trg)
+            code = [k for k, v in TRIGGERS.items() if v == f["trigger"]][0]
+            if not any(t == code for (_, _, t) in trg):
+                raise Broken("the witness of known finding %s no longer fires its trigger on the implementation "
+                             "(repaired? then mark it fixed and update the model)" % f["trigger"])
+    return n
 
 
 def run(ctx):
@@ -112,6 +158,7 @@ def run(ctx):
     except Broken as b:
         broken = b
     vh = common.build_harness()
+    ncorpus = corpus(ctx, vh)
     n = 150 if ctx.tier == "thorough" else 36
     rep, cases, mm, mon, trg = evaluate(ctx, vh, ["-seed", str(ctx.seed), "-n", str(n)])
     known_hits, bad = judge(ctx, cases, mm, mon, trg)
@@ -124,9 +171,9 @@ def run(ctx):
         "rule": "7 scripted histories (life cycle, the refuted-theorem witnesses, verdict+freeze, maturity option change on a genesis "
                 "with maturing amounts) + seeded random histories of 14-23 blocks over 6 validators (4 genesis, 2 candidates) and their "
                 "stake accounts: stake/unstake/withdraw with amounts around 0, the balance (1,000,000 OLT), the validator total, and in a "
-                "third of the histories 2^63-1, 2^64, 2^64+1000, 2^65, -1, -100, -2^64; a GUILTY verdict in half of them; maturity 0..5; "
+                "third of the histories 2^63-1, 2^64, 2^64+1000, 2^65, -1, -100, -2^64 (all rejected since fix 48c76fc); a GUILTY verdict in half of them; maturity 0..5; "
                 "evaluations = model steps compared, distinct = staking transactions delivered",
-        "traces_validated_against_impl": rep["cases"], "histories": rep["cases"], "histories_without_any_trigger": clean_cases,
+        "traces_validated_against_impl": rep["cases"], "histories": rep["cases"], "corpus_replays": ncorpus, "histories_without_any_trigger": clean_cases,
         "crashed_histories": rep.get("crashed_histories") or [],
         "kind_histogram": rep["kind_histogram"], "outcome_histogram": rep["outcome_histogram"],
         "amount_class_histogram": rep["amount_class_histogram"], "verdicts": rep["verdicts"],
